@@ -68,6 +68,10 @@ def instances(tier):
     out.append(dict(id="controller-implicit-aware-RadauIIA5", kind="controller_implicit", cls="RadauIIA5", shape=[1], budget=b))
     for base in ("EulerSolver", "RK4Solver", "SymplecticEulerSolver"):
         out.append(dict(id="richardson-retry-%s" % base, kind="richardson", cls=base, budget=dict(b, max_branches=150, max_paths=60, wall_s=50)))
+    # a wrapper around an ADAPTIVE base whose coarsest sub-step is shortened by the base's own controller: every level of the
+    # extrapolation table must cover the interval that is handed back, for either sign of the step
+    for base in (("HeunEulerSolver",) if quick else ("HeunEulerSolver", "RK45CKSolver", "DOPRI45")):
+        out.append(dict(id="richardson-adaptive-base-shortens-%s" % base, kind="richardson_cover", cls=base, budget=b))
     return out
 
 
@@ -195,6 +199,8 @@ def scenario(c, inst):
     if kind == "tolerance_flow":
         _tolerance_flow(c, inst)
         return
+    if kind == "richardson_cover":
+        return _richardson_cover(c, inst)
     if kind == "richardson":
         _richardson(c, inst)
         return
@@ -376,6 +382,42 @@ def _controller_history(c, inst):
             err2 = err2 + q * q
         c.check("c05.history.accepted_step_meets_tolerance_of_its_own_state", c.le(err2, 1, 1), info=dict(cls=inst["cls"], call=k, attempts=natt))
         c.check("c05.history.next_step_has_sign_of_dT", c.lt(0, new_h * dT))
+
+
+def _richardson_cover(c, inst):
+    import desolver.integrators as I
+    base = _cls(inst["cls"])
+    RI = I.generate_richardson_integrator(base, richardson_iter=2)
+    t, h = c.real("t"), c.real("h")
+    c.assume(h != 0)
+    shape = (1,)
+    y = c.array([c.real("y0")])
+    dt = np.dtype(object) if c.symbolic else np.dtype(np.float64)
+    integ = RI(shape, dtype=dt, rtol=1e-6, atol=1e-6)
+    # the coarsest level's base integrator rejects its first attempt once (its controller proposes corr*h, corr < 0.81); the finer level accepts
+    integ.basis_integrators[0].update_timestep = ctrl_stub(c, integ.basis_integrators[0], max_redo=1)
+    for bi in integ.basis_integrators[1:]:
+        bi.update_timestep = ctrl_stub(c, bi, fixed=1.0)
+    integ.update_timestep = ctrl_stub(c, integ, fixed=1.0)
+    covered = []
+    orig = integ.subdiv_step
+
+    def subdiv(int_num, rhs_, t_, y_, hh, consts, num):
+        r = orig(int_num, rhs_, t_, y_, hh, consts, num)
+        covered.append((int_num, r[1][0]))
+        return r
+    integ.subdiv_step = subdiv
+    rhs = FreshRhs(c, shape)
+    st, r = run(integ, rhs, t, y, {}, h)
+    if st != "ok":
+        c.check("c05.richardson_cover.call_returns", False, info=repr(r))
+        return
+    new_h, (dT, dY) = r
+    c.case()
+    c.note("levels_run", [k for k, _ in covered])
+    c.check("c05.richardson_cover.handed_back_step_has_sign_of_h_and_is_not_longer", c.all([c.lt(0, dT * h), c.le(dT * dT, h * h, 1)]))
+    c.check("c05.richardson_cover.every_level_covers_the_step_handed_back", c.all([c.eq(cov, dT, 1) for _, cov in covered]),
+            info=dict(levels=len(covered)))
 
 
 def _richardson(c, inst):
